@@ -7,10 +7,12 @@ Two ties (driver ops of lean/SRVerif/Driver/C12Bridge.lean):
   * c12_emb_dict     canonical cases (the generators of the solver ties C01-C05: plain / ordered incl. prescribed root
                      orders / unordered; plain algorithms also on inputs that carry leaf syntenies) are solved by the
                      REAL solvers (seven algorithms x any/all) under the harness naming (sr.default_sname /
-                     default_oname / fam_name) or, in a third of the cases, random unique safe names; every result x
+                     default_oname / fam_name) or, in a third of the cases, random unique safe names, and with an NHX
+                     `color` feature on each node of either tree with probability 0.12 (README "Adding color";
+                     naming["scolours"] / ["ocolours"]: the Colouring of Model/SolOutputColour.lean); every result x
                      gives the canonical solution s = sr.canon_solution(x) and `x.to_dict()` (after a JSON round trip)
                      is compared with the dictionary of the model's embedding of s under the same naming
-                     (embPlain / embSuper, then toDict with the Newick writer: op c12b_emb).  Compared as
+                     (embPlainC / embSuperC, then toDict with the Newick writer: op c12b_emb).  Compared as
                      dictionaries: same keys; Newick strings parsed by ete3 (the reader the package uses) into names,
                      colours and topology; mappings and the cost table as mappings; syntenies as lists for ordered and
                      plain outputs, as sets for unordered ones.  Child order and key order differences are counted,
@@ -51,7 +53,8 @@ from harness.checks import c06, c11
 
 RULE_BRIDGE = __doc__.split("Two ties", 1)[1]
 TRUSTED_BRIDGE = [
-    "model: lean/SRVerif/Model/SolOutput.lean (embPlain / embSuper: what the solvers hand to to_dict, for a solution "
+    "model: lean/SRVerif/Model/SolOutput.lean + Model/SolOutputColour.lean (embPlainC / embSuperC = embPlain / "
+    "embSuper with the NHX colours of the input trees: what the solvers hand to to_dict, for a solution "
     "of the solver models; evalPlain / evalSuper: decode the parsed structure, then totalCost of Model/Rec.lean) "
     "composed with to_dict / from_dict of Model/Serialize.lean and the Newick codec of Model/Newick.lean (tied by C11)",
     "sr.canon_solution reads the canonical solution off the real result's `object_species` / `syntenies` attributes "
@@ -64,6 +67,7 @@ KIND = solvers.MODE
 SAFE_WORD = re.compile(r"[A-Za-z0-9_]+\Z")
 COST_NAMES = {"spe": "SPECIATION", "dup": "DUPLICATION", "hgt": "HORIZONTAL_TRANSFER", "floss": "FULL_LOSS",
               "sloss": "SEGMENTAL_LOSS"}
+P_COLOUR = 0.12
 FAM_POOL = ["g1", "g2", "g10", "g3", "f01", "x_2", "A", "b7", "g20", "h", "G1", "12", "g", "fam_3"]
 
 
@@ -121,8 +125,23 @@ def make_naming(rng, case, random_names):
         stab = {p: sr.default_sname(p) for p in gen.all_paths(case["S"])}
         otab = {p: sr.default_oname(p, None if l is None else stab[l["s"]]) for p, l in o_paths(case["O"])}
         ftab = {i: sr.fam_name(i) for i in range(max(fams_of(case) + [0]) + 4)}
+    # colours of the input file (one entry per COLOURED node): drawn last, so that the names above are the
+    # names drawn before colours existed
+    scol = [[p, c11.rand_colour(rng)] for p in stab if rng.random() < P_COLOUR]
+    ocol = [[p, c11.rand_colour(rng)] for p in otab if rng.random() < P_COLOUR]
     return {"snames": [[p, n] for p, n in stab.items()], "onames": [[p, n] for p, n in otab.items()],
-            "fnames": [[i, n] for i, n in ftab.items()], "default": not random_names}
+            "fnames": [[i, n] for i, n in ftab.items()], "default": not random_names,
+            "scolours": scol, "ocolours": ocol}
+
+
+def colour_input(inp, naming):
+    """Put the colours of the naming on the nodes of the real input object (what reading a file with
+    `[&&NHX:color=...]` does: ete3 keeps the feature `color` on the node)."""
+    for tree, key in ((inp.species_lca.tree, "scolours"), (inp.object_tree, "ocolours")):
+        if naming.get(key):
+            _, back = sr.index_tree(tree)
+            for p, c in naming[key]:
+                back[p].add_feature("color", c)
 
 
 def naming_functions(naming):
@@ -261,6 +280,7 @@ def run_real(case, algo, policy, naming, with_syn):
     """The real solver on the case under the naming -> (input object, list of results) or an error name."""
     fns, _ = naming_functions(naming)
     inp = sr.build_input(case, float_inf=True, force_plain=not with_syn, **fns)
+    colour_input(inp, naming)
     fn = sr.algorithms()[algo]
     try:
         with contextlib.redirect_stderr(io.StringIO()):
@@ -350,7 +370,11 @@ def check_emb(ctx, res, n):
         reqs.append({"op": "c12b_emb", "S": case["S"], "O": case["O"], "costs": case["costs"],
                      "root": case.get("root"), "algo": algo, "with_syn": with_syn, "sols": sols,
                      "member": policy == "all", "snames": naming["snames"], "onames": naming["onames"],
-                     "fnames": naming["fnames"]})
+                     "fnames": naming["fnames"], "scolours": naming.get("scolours", []),
+                     "ocolours": naming.get("ocolours", [])})
+        if naming.get("scolours") or naming.get("ocolours"):
+            res.dist["emb: coloured input (%s)" % "+".join(
+                k for k in ("scolours", "ocolours") if naming.get(k))] += 1
         metas.append((rec, dicts))
         for d in dicts[:2]:
             harvested.append(("solver:" + algo, d, naming["default"]))
@@ -692,7 +716,8 @@ def replay_bridge(ctx, data):
         req = {"op": "c12b_emb", "S": case["S"], "O": case["O"], "costs": case["costs"], "root": case.get("root"),
                "algo": rec["algo"], "with_syn": rec["with_syn"], "sols": [sr.canon_solution(x, fidx) for x in outs],
                "member": rec["policy"] == "all", "snames": naming["snames"], "onames": naming["onames"],
-               "fnames": naming["fnames"]}
+               "fnames": naming["fnames"], "scolours": naming.get("scolours", []),
+               "ocolours": naming.get("ocolours", [])}
         compare_emb(res, rec, dicts, ctx.driver.batch([req])[0])
     else:
         d = from_form(rec["dict"])
